@@ -385,4 +385,224 @@ theorem copysign_exact {t s : TwoFloat} (hvt : TwoFloat.is_valid t = true) (ht :
           rw [← Bool.not_eq_true, h1]; exact hq
         rw [e1, e2]; simp [abs_of_neg hq']
 
+/-! ### comparisons return the outcome of comparing the exact values -/
+
+/-- `partial_cmp` of valid operands is `Some(compare of the exact values)` -/
+theorem partial_cmp_exact {a b : TwoFloat}
+    (hva : TwoFloat.is_valid a = true) (ha : a.Valid) (hvb : TwoFloat.is_valid b = true) (hb : b.Valid) :
+    tcmp a b = some (ROrdering.ofOrdering (compare a.V b.V)) := by
+  unfold tcmp
+  rw [partial_cmp_exact_of F64.roundFacts hva hvb ha hb, ROrdering.ofInts_eq_compare]
+
+theorem partial_cmp_exact' {a b : TwoFloat}
+    (hva : TwoFloat.is_valid a = true) (ha : a.Valid) (hvb : TwoFloat.is_valid b = true) (hb : b.Valid) :
+    tcmp a b = some (ROrdering.ofInts a.V b.V) :=
+  partial_cmp_exact_of F64.roundFacts hva hvb ha hb
+
+theorem lt_exact {a b : TwoFloat}
+    (hva : TwoFloat.is_valid a = true) (ha : a.Valid) (hvb : TwoFloat.is_valid b = true) (hb : b.Valid) :
+    ROrd.isLt (tcmp a b) = true ↔ a.V < b.V := by
+  rw [partial_cmp_exact' hva ha hvb hb, ROrd.isLt_ofInts]
+theorem le_exact {a b : TwoFloat}
+    (hva : TwoFloat.is_valid a = true) (ha : a.Valid) (hvb : TwoFloat.is_valid b = true) (hb : b.Valid) :
+    ROrd.isLe (tcmp a b) = true ↔ a.V ≤ b.V := by
+  rw [partial_cmp_exact' hva ha hvb hb, ROrd.isLe_ofInts]
+theorem gt_exact {a b : TwoFloat}
+    (hva : TwoFloat.is_valid a = true) (ha : a.Valid) (hvb : TwoFloat.is_valid b = true) (hb : b.Valid) :
+    ROrd.isGt (tcmp a b) = true ↔ b.V < a.V := by
+  rw [partial_cmp_exact' hva ha hvb hb, ROrd.isGt_ofInts]
+theorem ge_exact {a b : TwoFloat}
+    (hva : TwoFloat.is_valid a = true) (ha : a.Valid) (hvb : TwoFloat.is_valid b = true) (hb : b.Valid) :
+    ROrd.isGe (tcmp a b) = true ↔ b.V ≤ a.V := by
+  rw [partial_cmp_exact' hva ha hvb hb, ROrd.isGe_ofInts]
+theorem eq_exact {a b : TwoFloat}
+    (hva : TwoFloat.is_valid a = true) (ha : a.Valid) (hvb : TwoFloat.is_valid b = true) (hb : b.Valid) :
+    teq a b = true ↔ a.V = b.V := by
+  rw [eq_iff_partial_cmp_equal, partial_cmp_exact' hva ha hvb hb, Option.some.injEq,
+    ROrdering.ofInts_eq_Equal]
+
+/-- rounding-theory-free special case: equal high words -/
+theorem partial_cmp_exact_partial {a b : TwoFloat}
+    (hva : TwoFloat.is_valid a = true) (ha : a.Valid) (hvb : TwoFloat.is_valid b = true) (hb : b.Valid)
+    (h : a.hi.toInt = b.hi.toInt) :
+    tcmp a b = some (ROrdering.ofInts a.V b.V) :=
+  partial_cmp_exact_of_hi_eq hva hvb ha hb h
+
+/-! ### mixed comparisons: `c` promoted exactly (any well-formed f64 `c`) -/
+
+/-- finite `c` -/
+theorem partial_cmp_f64_exact {t : TwoFloat} (ht : t.Valid) {c : F64} (hc : c.WF)
+    (hcf : c.is_finite = true) :
+    cmpTF t c = some (ROrdering.ofOrdering (compare t.V c.toInt)) := by
+  unfold cmpTF
+  rw [partial_cmp_tf_exact_of F64.roundFacts ht hc hcf, ROrdering.ofInts_eq_compare]
+
+theorem partial_cmp_f64_exact' {t : TwoFloat} (ht : t.Valid) {c : F64} (hc : c.WF)
+    (hcf : c.is_finite = true) :
+    cmpTF t c = some (ROrdering.ofInts t.V c.toInt) :=
+  partial_cmp_tf_exact_of F64.roundFacts ht hc hcf
+
+/-- rounding-theory-free special case: `hi = c` -/
+theorem partial_cmp_f64_exact_partial {t : TwoFloat} (ht : t.Valid) {c : F64}
+    (hcf : c.is_finite = true) (h : t.hi.toInt = c.toInt) :
+    cmpTF t c = some (ROrdering.ofInts t.V c.toInt) :=
+  partial_cmp_tf_exact_of_hi_eq ht hcf h
+
+/-- reversed order `c.partial_cmp(&t)` -/
+theorem partial_cmp_f64_exact_rev {t : TwoFloat} (ht : t.Valid) {c : F64} (hc : c.WF)
+    (hcf : c.is_finite = true) :
+    cmpFT c t = some (ROrdering.ofInts c.toInt t.V) := by
+  rw [partial_cmp_mixed_swap, partial_cmp_f64_exact' ht hc hcf, ROrd.swap_some,
+    ← ROrdering.ofInts_swap]
+
+/-- `c = ±∞`: every valid pair is below `+∞` and above `-∞` -/
+theorem partial_cmp_f64_inf {t : TwoFloat} (ht : t.Valid) (s : Bool) :
+    cmpTF t (F64.inf s) = some (if s then .Greater else .Less) ∧
+    cmpFT (F64.inf s) t = some (if s then .Less else .Greater) := by
+  have h := partial_cmp_tf_inf ht.1 s
+  refine ⟨h, ?_⟩
+  rw [partial_cmp_mixed_swap]
+  unfold cmpTF
+  rw [h]; cases s <;> rfl
+
+/-- `c = NaN`: unordered and unequal in both orders -/
+theorem partial_cmp_f64_nan (t : TwoFloat) :
+    eqTF t F64.nan = false ∧ eqFT F64.nan t = false ∧ cmpTF t F64.nan = none ∧ cmpFT F64.nan t = none :=
+  mixed_nan_unordered t F64.nan (Or.inr rfl)
+
+theorem lt_f64_exact {t : TwoFloat} (ht : t.Valid) {c : F64} (hc : c.WF) (hcf : c.is_finite = true) :
+    ROrd.isLt (cmpTF t c) = true ↔ t.V < c.toInt := by
+  rw [partial_cmp_f64_exact' ht hc hcf, ROrd.isLt_ofInts]
+theorem le_f64_exact {t : TwoFloat} (ht : t.Valid) {c : F64} (hc : c.WF) (hcf : c.is_finite = true) :
+    ROrd.isLe (cmpTF t c) = true ↔ t.V ≤ c.toInt := by
+  rw [partial_cmp_f64_exact' ht hc hcf, ROrd.isLe_ofInts]
+theorem gt_f64_exact {t : TwoFloat} (ht : t.Valid) {c : F64} (hc : c.WF) (hcf : c.is_finite = true) :
+    ROrd.isGt (cmpTF t c) = true ↔ c.toInt < t.V := by
+  rw [partial_cmp_f64_exact' ht hc hcf, ROrd.isGt_ofInts]
+theorem ge_f64_exact {t : TwoFloat} (ht : t.Valid) {c : F64} (hc : c.WF) (hcf : c.is_finite = true) :
+    ROrd.isGe (cmpTF t c) = true ↔ c.toInt ≤ t.V := by
+  rw [partial_cmp_f64_exact' ht hc hcf, ROrd.isGe_ofInts]
+theorem eq_f64_exact {t : TwoFloat} (ht : t.Valid) {c : F64} (hc : c.WF) (hcf : c.is_finite = true) :
+    eqTF t c = true ↔ t.V = c.toInt := by
+  rw [eq_mixed_iff_partial_cmp_equal, partial_cmp_f64_exact' ht hc hcf, Option.some.injEq,
+    ROrdering.ofInts_eq_Equal]
+
+theorem lt_f64_exact_rev {t : TwoFloat} (ht : t.Valid) {c : F64} (hc : c.WF) (hcf : c.is_finite = true) :
+    ROrd.isLt (cmpFT c t) = true ↔ c.toInt < t.V := by
+  rw [← gt_mixed_swap, gt_f64_exact ht hc hcf]
+theorem le_f64_exact_rev {t : TwoFloat} (ht : t.Valid) {c : F64} (hc : c.WF) (hcf : c.is_finite = true) :
+    ROrd.isLe (cmpFT c t) = true ↔ c.toInt ≤ t.V := by
+  rw [← ge_mixed_swap, ge_f64_exact ht hc hcf]
+theorem gt_f64_exact_rev {t : TwoFloat} (ht : t.Valid) {c : F64} (hc : c.WF) (hcf : c.is_finite = true) :
+    ROrd.isGt (cmpFT c t) = true ↔ t.V < c.toInt := by
+  rw [← lt_mixed_swap, lt_f64_exact ht hc hcf]
+theorem ge_f64_exact_rev {t : TwoFloat} (ht : t.Valid) {c : F64} (hc : c.WF) (hcf : c.is_finite = true) :
+    ROrd.isGe (cmpFT c t) = true ↔ t.V ≤ c.toInt := by
+  rw [← le_mixed_swap, le_f64_exact ht hc hcf]
+theorem eq_f64_exact_rev {t : TwoFloat} (ht : t.Valid) {c : F64} (hc : c.WF) (hcf : c.is_finite = true) :
+    eqFT c t = true ↔ c.toInt = t.V := by
+  rw [← eq_mixed_symm, eq_f64_exact ht hc hcf]; exact eq_comm
+
+/-! ### min / max return the operand with the smaller / larger exact value -/
+
+theorem min_exact {a b : TwoFloat}
+    (hva : TwoFloat.is_valid a = true) (ha : a.Valid) (hvb : TwoFloat.is_valid b = true) (hb : b.Valid) :
+    TwoFloat.min a b = if a.V ≤ b.V then a else b := by
+  rw [min_of_valid hva hvb]
+  by_cases h : a.V ≤ b.V
+  · rw [if_pos h, if_pos ((le_exact hva ha hvb hb).mpr h)]
+  · rw [if_neg h, if_neg (fun h' => h ((le_exact hva ha hvb hb).mp h'))]
+
+theorem max_exact {a b : TwoFloat}
+    (hva : TwoFloat.is_valid a = true) (ha : a.Valid) (hvb : TwoFloat.is_valid b = true) (hb : b.Valid) :
+    TwoFloat.max a b = if b.V ≤ a.V then a else b := by
+  rw [max_of_valid hva hvb]
+  by_cases h : b.V ≤ a.V
+  · rw [if_pos h, if_pos ((ge_exact hva ha hvb hb).mpr h)]
+  · rw [if_neg h, if_neg (fun h' => h ((ge_exact hva ha hvb hb).mp h'))]
+
+theorem min_V {a b : TwoFloat}
+    (hva : TwoFloat.is_valid a = true) (ha : a.Valid) (hvb : TwoFloat.is_valid b = true) (hb : b.Valid) :
+    (TwoFloat.min a b).V = min a.V b.V := by
+  rw [min_exact hva ha hvb hb]
+  by_cases h : a.V ≤ b.V
+  · rw [if_pos h, Int.min_eq_left h]
+  · rw [if_neg h, Int.min_eq_right (by omega)]
+
+theorem max_V {a b : TwoFloat}
+    (hva : TwoFloat.is_valid a = true) (ha : a.Valid) (hvb : TwoFloat.is_valid b = true) (hb : b.Valid) :
+    (TwoFloat.max a b).V = max a.V b.V := by
+  rw [max_exact hva ha hvb hb]
+  by_cases h : b.V ≤ a.V
+  · rw [if_pos h, Int.max_eq_left h]
+  · rw [if_neg h, Int.max_eq_right (by omega)]
+
+/-! ## non-vacuity: the hypotheses are satisfiable on concrete non-trivial values -/
+
+section Examples
+
+/-- 1 + 2^-60 and 1 - 2^-60: equal high words, the low words decide -/
+private def p1 : TwoFloat := ⟨F64.one, F64.fin false (2 ^ 1014)⟩
+private def p2 : TwoFloat := ⟨F64.one, F64.fin true (2 ^ 1014)⟩
+
+example : TwoFloat.is_valid consts.E = true ∧ consts.E.Valid := by decide +kernel
+example : TwoFloat.is_valid consts.FRAC_PI_2 = true ∧ consts.FRAC_PI_2.Valid := by decide +kernel
+example : TwoFloat.is_valid base.DEG_PER_RAD = true ∧ base.DEG_PER_RAD.Valid := by decide +kernel
+example : TwoFloat.is_valid p1 = true ∧ p1.Valid ∧ TwoFloat.is_valid p2 = true ∧ p2.Valid := by
+  decide +kernel
+
+/-- `partial_cmp_exact` applies to (e, π/2) with different high words … -/
+example : tcmp consts.E consts.FRAC_PI_2 = some .Greater ∧ consts.FRAC_PI_2.V < consts.E.V := by
+  decide +kernel
+example : ROrd.isGt (tcmp consts.E consts.FRAC_PI_2) = true :=
+  (gt_exact (a := consts.E) (b := consts.FRAC_PI_2) (by decide +kernel) (by decide +kernel)
+    (by decide +kernel) (by decide +kernel)).mpr (by decide +kernel)
+/-- … and to a pair with equal high words -/
+example : tcmp p1 p2 = some .Greater ∧ p1.hi = p2.hi ∧ p2.V < p1.V := by decide +kernel
+
+/-- mixed comparison where `hi = c` and the (negative) low word decides -/
+example : cmpTF p2 F64.one = some .Less ∧ cmpFT F64.one p2 = some .Greater ∧
+    p2.V < F64.one.toInt ∧ F64.one.WF := by decide +kernel
+/-- mixed comparison where `hi ≠ c` -/
+example : cmpTF consts.E F64.one = some .Greater ∧ eqTF consts.E F64.one = false := by
+  decide +kernel
+example : eqTF (TwoFloat.from_f64 F64.one) F64.one = true := by decide +kernel
+
+/-- a negative valid operand with non-zero exact value, for abs / signum / copysign / is_sign_negative -/
+example : TwoFloat.is_valid (tneg p2) = true ∧ (tneg p2).Valid ∧ (tneg p2).V < 0 ∧
+    TwoFloat.is_sign_negative (tneg p2) = true ∧
+    TwoFloat.abs (tneg p2) = p2 ∧
+    TwoFloat.signum (tneg p2) = ⟨F64.neg F64.one, F64.zero⟩ ∧
+    TwoFloat.copysign consts.E (tneg p2) = tneg consts.E := by decide +kernel
+
+/-- the skip-invalid rule of min / max on an invalid finite pair (1, 1) -/
+example : TwoFloat.is_valid ⟨F64.one, F64.one⟩ = false ∧
+    TwoFloat.min ⟨F64.one, F64.one⟩ consts.E = consts.E ∧
+    TwoFloat.max consts.E ⟨F64.one, F64.one⟩ = consts.E := by decide +kernel
+
+/-- the hypothesis of `nan_word_unordered` on the historical witness (∞, NaN) = new_add(∞, 1) -/
+example : teq TwoFloat.INFINITY ⟨F64.inf false, F64.nan⟩ = false ∧
+    teq ⟨F64.inf false, F64.nan⟩ TwoFloat.INFINITY = false ∧
+    tcmp TwoFloat.INFINITY ⟨F64.inf false, F64.nan⟩ = none ∧
+    tcmp ⟨F64.inf false, F64.nan⟩ TwoFloat.INFINITY = none :=
+  nan_word_unordered _ _ (Or.inr (Or.inr (Or.inr rfl)))
+
+/-- `abs_abs` needs its hypothesis: on the VALID pair (+0, -0), `abs` flips both zero signs each time
+(values are all zero, so `abs_exact` is unaffected) -/
+example : TwoFloat.is_valid ⟨F64.zero, F64.negZero⟩ = true ∧
+    TwoFloat.abs ⟨F64.zero, F64.negZero⟩ = ⟨F64.negZero, F64.zero⟩ ∧
+    TwoFloat.abs (TwoFloat.abs ⟨F64.zero, F64.negZero⟩) = ⟨F64.zero, F64.negZero⟩ := by
+  decide +kernel
+/-- … and with a NaN high word `abs` negates the low word each time -/
+example : TwoFloat.abs (TwoFloat.abs ⟨F64.nan, F64.one⟩) ≠ TwoFloat.abs ⟨F64.nan, F64.one⟩ := by
+  decide +kernel
+
+/-- outside the scope of C06 (operands not valid): two NaN-free invalid operands always compare
+`Equal`, so `INFINITY == NEG_INFINITY` in the model, and an invalid operand is `Greater` than every
+valid one (`NEG_INFINITY > e`) -/
+example : teq TwoFloat.INFINITY TwoFloat.NEG_INFINITY = true ∧
+    tcmp TwoFloat.NEG_INFINITY consts.E = some .Greater := by decide +kernel
+
+end Examples
+
 end C06
